@@ -11,6 +11,6 @@ CONSTANTS
   Cases <- AllCases
   Policies <- Both
   Configs <- AllConfigs
-  ConfigDepth = 9
+  ConfigDepth = 3
 INVARIANTS NonInterference FinalEqualsSolo Emit
 CHECK_DEADLOCK FALSE
